@@ -144,7 +144,12 @@ def execute(plan):
         exp = []
         for p in pels:
             exp += [(p["name"],) + e for e in plug.expected_calls(p["recipe"], plugins, skip)]
-        act = list(op["calls"])
+        # the property fixes which module is consulted and what it receives, not how often: an immediately
+        # repeated identical call (same module, function, arguments) is collapsed
+        act = []
+        for c in op["calls"]:
+            if not act or (act[-1][0], act[-1][1], act[-1][2]) != (c[0], c[1], c[2]):
+                act.append(c)
         tr = []
         i = 0
         for e in exp:
